@@ -1,2 +1,123 @@
-(* C15/Properties.v — placeholder until the proofs land *)
-From BlockTree Require Import Model Spec.
+(* C15/Properties.v — property C15: the block tree structure matches the added blocks.
+   Only statements, each closed by `exact <lemma>`, with Print Assumptions beneath.
+
+   Vocabulary (coq/BlockTree):
+   * Model.v   run : the model of lib/blocktree (NewBlockTreeFromRoot, AddBlock, Prune) on a
+               history; get_all_blocks, get_leaves_of, is_descendant_of, range, ... its queries.
+   * Spec.v    s_run : the specification, a SET OF BLOCKS WITH A PARENT FUNCTION: root hash and
+               the list of (hash, parent hash, number, arrival, primary) of the other blocks;
+               s_add accepts a header iff its parent is held, its hash is new and its number is
+               the parent's plus one; s_fin keeps the blocks that descend from the finalised one
+               and reports as pruned those that neither descend from it nor are its ancestors.
+   * descends bl a c : c is reached from a through parent links of bl (inductive closure). *)
+From Coq Require Import List NArith ZArith Bool Permutation.
+From Common Require Import Outcome.
+From BlockTree Require Import Model Spec ProofsTree ProofsPath ProofsSpec ProofsSim ProofsQuery
+  ProofsBest ProofsHist ProofsPre.
+Import ListNotations.
+Local Open Scope N_scope.
+
+(* For every history of additions and finalisations from NewBlockTreeFromRoot(h, x):
+   the tree holds exactly the blocks of the specification, its leaf map holds exactly the
+   blocks without children, every AddBlock answers as the specification does (same error
+   class), every Prune reports a permutation of the specified pruned set. *)
+Theorem C15_refines_block_set : forall h x a ops,
+  let t := tree_after h x a ops in
+  let s := spec_after h x ops in
+  Permutation (get_all_blocks t) (s_hashes s)
+  /\ Permutation (get_leaves_of t) (s_leaves s)
+  /\ Forall2 res_eq (snd (run (new_tree h x a) ops)) (snd (s_run (mkSst h x []) ops)).
+Proof.
+  intros h x a ops. repeat split.
+  - exact (sim_blocks _ _ (sim_after h x a ops)).
+  - exact (sim_leaves _ _ (sim_after h x a ops)).
+  - exact (results_after h x a ops).
+Qed.
+Print Assumptions C15_refines_block_set.
+
+(* the leaves of the specification are, by definition, the held blocks that are nobody's parent *)
+Theorem C15_leaves_are_childless : forall s y,
+  In y (s_leaves s) <-> In y (s_hashes s) /\ forall b, In b (s_blocks s) -> b_parent b <> y.
+Proof.
+  intros s y. unfold s_leaves. rewrite filter_In, negb_true_iff. split.
+  - intros (H & E). split; auto. intros b Hb Hp.
+    assert (existsb (fun b => b_parent b =? y) (s_blocks s) = true).
+    { apply existsb_exists. exists b. split; auto. apply N.eqb_eq; auto. }
+    congruence.
+  - intros (H & E). split; auto. destruct (existsb _ _) eqn:X; auto.
+    apply existsb_exists in X as (b & Hb & Hp). apply N.eqb_eq in Hp. exfalso. eapply E; eauto.
+Qed.
+Print Assumptions C15_leaves_are_childless.
+
+(* in every reachable state the executable parent-link walk of the specification is the
+   reflexive-transitive closure of the parent links *)
+Theorem C15_desc_is_parent_closure : forall h x ops p c,
+  s_desc (spec_after h x ops) p c = true <-> descends (s_blocks (spec_after h x ops)) p c.
+Proof. intros h x ops p c. exact (sim_desc_iff _ _ p c (sim_after h x 0%Z ops)). Qed.
+Print Assumptions C15_desc_is_parent_closure.
+
+(* Finalising a held block f other than the root: the hashes reported as pruned are pairwise
+   different and are exactly the held blocks that are neither descendants nor ancestors of f;
+   the tree afterwards holds exactly the descendants of f. *)
+Theorem C15_prune_exact : forall h x a ops f,
+  let t := tree_after h x a ops in
+  let s := spec_after h x ops in
+  s_known s f = true -> f <> s_root s ->
+  NoDup (snd (prune t f))
+  /\ (forall y, In y (snd (prune t f)) <->
+                In y (s_hashes s) /\ ~ descends (s_blocks s) f y /\ ~ descends (s_blocks s) y f)
+  /\ (forall y, In y (get_all_blocks (fst (prune t f))) <->
+                In y (s_hashes s) /\ descends (s_blocks s) f y).
+Proof.
+  intros h x a ops f t s Hk Hne.
+  destruct (sim_prune_exact t s f (sim_after h x a ops) Hk Hne) as (A & B).
+  split; [exact A|]. split; [exact B|].
+  exact (sim_prune_keeps t s f (sim_after h x a ops) Hk Hne).
+Qed.
+Print Assumptions C15_prune_exact.
+
+(* Ancestry and range queries agree with the parent links: IsDescendantOf is the parent-link
+   walk; an answer of Range / RangeInMemory is the parent-linked chain from start to end, and
+   when start is not an ancestor of end the answer is an error. *)
+Theorem C15_queries_follow_parent_links : forall h x a ops p q,
+  let t := tree_after h x a ops in
+  let s := spec_after h x ops in
+  is_descendant_of t p q = s_is_descendant_of s p q
+  /\ check_range s p q (range t p q) = true
+  /\ check_range_in_memory s p q (range_in_memory t p q) = true.
+Proof.
+  intros h x a ops p q. repeat split.
+  - exact (sim_is_descendant_of _ _ p q (sim_after h x a ops)).
+  - exact (sim_range _ _ p q (sim_after h x a ops)).
+  - exact (sim_range_in_memory _ _ p q (sim_after h x a ops)).
+Qed.
+Print Assumptions C15_queries_follow_parent_links.
+
+(* non-vacuity: a history with forks and a finalisation that prunes *)
+Example C15_nonvacuous :
+  let ops := [w_child 1; w_child 2; w_child 3; w_child 4;
+              OAdd (mkHeader 5 2 2 DSecondaryPlain) 1%Z; OFin 2] in
+  snd (run (new_tree 100 0 0%Z) ops) =
+    [RAdd (Ok tt); RAdd (Ok tt); RAdd (Ok tt); RAdd (Ok tt); RAdd (Ok tt); RFin [1; 3; 4]]
+  /\ get_all_blocks (tree_after 100 0 0%Z ops) = [2; 5]
+  /\ get_leaves_of (tree_after 100 0 0%Z ops) = [5].
+Proof. vm_compute. repeat split; reflexivity. Qed.
+
+(* The pinned tree before fixes/C15-prune-iterate-copy.patch: node.prune ranged over the slice
+   that deleteChild shifts; with three or more siblings pruned hashes are skipped or repeated. *)
+Theorem C15_prune_prefix_refuted :
+  exists t f, wf t /\ ~ Permutation (snd (prune_prefix t f)) (snd (s_fin (abs t) f)).
+Proof. exact prune_prefix_refuted. Qed.
+Print Assumptions C15_prune_prefix_refuted.
+
+Theorem C15_prune_prefix_duplicates : exists t f, wf t /\ ~ NoDup (snd (prune_prefix t f)).
+Proof. exact prune_prefix_duplicates. Qed.
+Print Assumptions C15_prune_prefix_duplicates.
+
+(* The pinned tree before fixes/C15-range-unrelated.patch: Range between blocks on different
+   forks answered a list that is not a parent-linked chain. *)
+Theorem C15_range_prefix_refuted :
+  exists t p q, wf t /\ check_range (abs t) p q (range_prefix t p q) = false
+                /\ check_range_in_memory (abs t) p q (range_in_memory_prefix t p q) = false.
+Proof. exact range_prefix_refuted. Qed.
+Print Assumptions C15_range_prefix_refuted.
